@@ -3,7 +3,7 @@
      reader:     M = code, geometry within 1e-9      (cases_model)
    The S-side helpers (judging the code's output by Spec/VttSpec.v) are in Proofs/C11/SpecCases.v so that
    this file depends on the model only. *)
-From Coq Require Import QArith Qminmax Qabs.
+From Coq Require Import QArith Qminmax Qabs Qround.
 From TT Require Import Base.Prelude Gen.VttTables Model.VttTokenizer Model.VttReader.
 Local Open Scope Z_scope.
 
@@ -82,3 +82,197 @@ Definition A (b : option Q) (bg col : option Z) (bo it un : bool) (l : option te
 Definition Sp := ENode KSpan.
 Definition Rb := ENode KRb.
 Definition Rt := ENode KRt.
+
+(* ================================================================ S on the code's output
+   The generated files also carry the grammar derivation (Spec.VttSpec.vfile) each text was printed from.
+   `judge` re-prints it (so S's printer is tied to the very text the code read), and checks every clause of
+   the property on the code's outcome.  Each failed clause is reported with the recorded finding whose
+   trigger covers the cue (0 = none: an unexcused contradiction of S). *)
+From TT Require Import Spec.VttSpec.
+
+(* ---- the code's tree seen as styled, timed runs *)
+Definition time_ms (q : Q) : Z :=
+  let m := Qfloor (q * 1000) in if Qeq_bool (q * 1000) (inject_Z m) then m else -1.
+Definition nz_bg (b : option Z) : option Z :=
+  match b with Some c => if c =? default_bg_color then None else Some c | None => None end.
+Definition or_else {A} (a b : option A) : option A := match a with Some _ => a | None => b end.
+
+(* Rbc holds the bases and Rtc the ruby texts: base1 text1 base2 text2 … is their interleaving *)
+Fixpoint interleave (b t : list (list run)) : list run :=
+  match b with
+  | [] => concat t
+  | x :: b' => x ++ match t with [] => interleave b' [] | y :: t' => y ++ interleave b' t' end
+  end.
+Fixpoint view_elem (pb : Q) (s : style) (tq : option Q) (e : elem) {struct e} : list run :=
+  let fix go (s : style) (tq : option Q) (l : list elem) {struct l} : list run :=
+    match l with [] => [] | x :: l' => view_elem pb s tq x ++ go s tq l' end in
+  let fix each (s : style) (tq : option Q) (l : list elem) {struct l} : list (list run) :=
+    match l with [] => [] | x :: l' => view_elem pb s tq x :: each s tq l' end in
+  match e with
+  | EText t => [RText (with_time (match tq with Some q => Some (time_ms q) | None => None end) s) t]
+  | EBr => [RBreak]
+  | ENode k a cs =>
+    let s' := mkStyle (st_bold s || a_bold a) (st_italic s || a_italic a) (st_under s || a_under a)
+                      (or_else (a_color a) (st_color s)) (or_else (nz_bg (a_bg a)) (st_bg s))
+                      (or_else (a_lang a) (st_lang s))
+                      (match k with KSpan => st_role s | KRb => RoleBase | KRt => RoleRt end) None in
+    let tq' := match a_begin a with
+               | Some b => Some ((match tq with Some q => q | None => pb end) + b)%Q
+               | None => tq
+               end in
+    go s' tq' cs
+  | ERuby b t => interleave (each s tq b) (each s tq t)
+  end.
+Definition view_para (p : para) : list run :=
+  merge_runs (flat_map (view_elem (pa_begin p) plain_style None) (pa_children p)).
+
+Definition wm_code (w : wmode) : Z := match w with LRTB => 0 | RLTB => 1 | TBLR => 2 | TBRL => 3 end.
+Definition da_code (d : dalign) : Z := match d with DABefore => 0 | DACenter => 1 | DAAfter => 2 end.
+Definition ta_code (t : talign) : Z := match t with TAStart => 0 | TACenter => 1 | TAEnd => 2 end.
+Definition view_region (r : region) : region_view :=
+  mkRV (wm_code (r_wm r)) (r_ox r) (r_oy r) (r_ew r) (r_eh r) (da_code (r_da r)) (ta_code (r_ta r)).
+
+(* ---- triggers of the recorded findings, on the grammar derivation *)
+Definition is_some {A} (o : option A) : bool := match o with Some _ => true | None => false end.
+(* 1 region-not-clamped: a position or size setting is present *)
+Definition trig_clamp (l : list setting) : bool := is_some (get_position l) || is_some (get_size l).
+(* 2 line-number-nonpositive: line number <= 0 (sign error) *)
+Definition trig_line (l : list setting) : bool :=
+  match get_line l with Some (LineNum n, _) => n <=? 0 | _ => false end.
+(* 3 vertical-line-center: vertical cue with line alignment center *)
+Definition trig_vcenter (l : list setting) : bool :=
+  is_some (get_vertical l) && match get_line l with Some (_, Some LaCenter) => true | _ => false end.
+
+Fixpoint count_ts (n : cnode) : Z :=
+  let fix go (l : list cnode) : Z := match l with [] => 0 | x :: l' => count_ts x + go l' end in
+  match n with
+  | CTs _ => 1
+  | CTag _ cs => go cs
+  | CRuby segs => (fix gs (sg : list (list cnode * list cnode)) : Z :=
+                     match sg with [] => 0 | (b, t) :: sg' => go b + go t + gs sg' end) segs
+  | _ => 0
+  end.
+Fixpoint sum_z (l : list Z) : Z := match l with [] => 0 | x :: l' => x + sum_z l' end.
+Definition count_ts_list (l : list cnode) : Z := sum_z (map count_ts l).
+Definition ts_inside (n : cnode) : bool := match n with CTs _ => false | _ => 0 <? count_ts n end.
+(* 5 timestamp-nesting: a timestamp inside a tag, or a second timestamp in the cue *)
+Definition trig_ts (l : list cnode) : bool := existsb ts_inside l || (2 <=? count_ts_list l).
+
+Fixpoint any_node (p : cnode -> bool) (n : cnode) : bool :=
+  let fix go (l : list cnode) : bool := match l with [] => false | x :: l' => any_node p x || go l' end in
+  p n ||
+  match n with
+  | CTag _ cs => go cs
+  | CRuby segs => (fix gs (sg : list (list cnode * list cnode)) : bool :=
+                     match sg with [] => false | (b, t) :: sg' => go b || go t || gs sg' end) segs
+  | _ => false
+  end.
+(* 4 annotation-charref: `&` in a voice or language annotation *)
+Definition trig_annot (l : list cnode) : bool :=
+  existsb (any_node (fun n => match n with CTag (TgV a) _ | CTag (TgLang a) _ => mem_z 38 a | _ => false end)) l.
+(* 6 charref-without-semicolon-table: a named reference other than amp, lt, gt, nbsp *)
+Definition legacy_ok (n : text) : bool :=
+  text_eqb n [97;109;112] || text_eqb n [108;116] || text_eqb n [103;116] || text_eqb n [110;98;115;112].
+Definition trig_charref (l : list cnode) : bool :=
+  existsb (any_node (fun n => match n with CRef (RefNamed nm) => negb (legacy_ok nm) | _ => false end)) l.
+(* 7 ruby-structure: ruby inside another tag; a base that is not one line of plain text; a line break in rt *)
+Definition plain_line (n : cnode) : bool :=
+  match n with CText t => negb (mem_z 10 t) | CRef _ => true | _ => false end.
+Definition has_lf (n : cnode) : bool := match n with CText t => mem_z 10 t | _ => false end.
+Definition ruby_bad (n : cnode) : bool :=
+  match n with
+  | CRuby segs =>
+    existsb (fun sg : list cnode * list cnode =>
+               is_nil (fst sg) || negb (forallb plain_line (fst sg)) ||
+               existsb (any_node has_lf) (snd sg) ||
+               existsb (any_node (fun x => match x with CRuby _ => true | _ => false end)) (snd sg)) segs
+  | CTag _ cs => existsb (any_node (fun x => match x with CRuby _ => true | _ => false end)) cs
+  | _ => false
+  end.
+Definition trig_ruby (l : list cnode) : bool := existsb (any_node ruby_bad) l.
+(* 8 cue-without-payload *)
+Definition trig_empty (l : list cnode) : bool := is_nil (print_cue_text l).
+
+Definition text_finding (l : list cnode) : Z :=
+  if trig_ruby l then 7 else if trig_annot l then 4 else if trig_ts l then 5 else if trig_charref l then 6 else 0.
+Definition region_finding (l : list setting) : Z :=
+  if trig_vcenter l then 3 else if trig_line l then 2 else if trig_clamp l then 1 else 0.
+
+(* ---- clauses.  Codes: 1 printer/text mismatch (harness), 2 exception, 3 cue count, 10 begin/end,
+   20 region, 30 text runs, 40 region sharing *)
+Definition settings_text (c : cue) : text := flat_map (fun s => 32 :: print_setting s) (c_settings c).
+Definition time_ok (t : tstamp) (q : Q) : bool := Qeq_bool q (Qmake (ts_ms t) 1000).
+
+Definition expected_runs (c : cue) : list run := runs_cue (c_payload c).
+
+Fixpoint judge_cues (rs : list region) (cs : list cue) (ps : list para) : list (Z * Z) :=
+  match cs, ps with
+  | c :: cs', p :: ps' =>
+    (if time_ok (c_begin c) (pa_begin p) && time_ok (c_end c) (pa_end p) then [] else [(10, 0)]) ++
+    (match nth_error rs (Z.to_nat (pa_region p)) with
+     | Some r => if region_ok (c_settings c) (view_region r) then [] else [(20, region_finding (c_settings c))]
+     | None => [(20, 0)]
+     end) ++
+    (if runs_eq (view_para p) (expected_runs c) then [] else [(30, text_finding (c_payload c))]) ++
+    judge_cues rs cs' ps'
+  | _, _ => []
+  end.
+Fixpoint sharing (cs : list cue) (ps : list para) : bool :=
+  match cs, ps with
+  | c :: cs', p :: ps' =>
+    (fix inner (cs2 : list cue) (ps2 : list para) : bool :=
+       match cs2, ps2 with
+       | c2 :: cs2', p2 :: ps2' =>
+         (negb (text_eqb (settings_text c) (settings_text c2)) || (pa_region p =? pa_region p2)) && inner cs2' ps2'
+       | _, _ => true
+       end) cs' ps' && sharing cs' ps'
+  | _, _ => true
+  end.
+
+(* an exception aborts the whole file; it is excused only if some cue of the file carries a construct on which
+   a recorded finding makes the parser raise: bad ruby structure (7); `&` in an annotation, after which the
+   end tag leaves the paragraph (4); a timestamp span that then receives a ruby (5); no payload (8) *)
+Definition has_ruby (l : list cnode) : bool :=
+  existsb (any_node (fun x => match x with CRuby _ => true | _ => false end)) l.
+Definition exc_finding (cs : list cue) : Z :=
+  if existsb (fun c => trig_ruby (c_payload c)) cs then 7
+  else if existsb (fun c => trig_annot (c_payload c)) cs then 4
+  else if existsb (fun c => (0 <? count_ts_list (c_payload c)) && has_ruby (c_payload c)) cs then 5
+  else if existsb (fun c => trig_empty (c_payload c)) cs then 8 else 0.
+
+Definition judge (f : vfile) (txt : text) (o : outcome) : list (Z * Z) :=
+  if negb (text_eqb (print_file f) txt) then [(1, 0)] else
+  let cs := cues_of f in
+  match o with
+  | Raised _ => [(2, exc_finding cs)]
+  | OkDoc rs ps =>
+    if negb (length ps =? length cs)%nat
+    then [(3, if existsb (fun c => trig_empty (c_payload c)) cs then 8 else 0)]
+    else judge_cues rs cs ps ++ (if sharing cs ps then [] else [(40, 0)])
+  end.
+(* per case: (clause, finding) pairs; the harness reads the printed list *)
+Definition cases_spec (cs : list (vfile * text * outcome)) : list (list (Z * Z)) :=
+  map (fun c => judge (fst (fst c)) (snd (fst c)) (snd c)) cs.
+
+(* writer round trip: the cues an independent scan of the written text finds (begin ms, end ms, visible text
+   with line breaks as LF) against the paragraphs the reader returned *)
+Fixpoint plain_text (e : elem) : text :=
+  let fix go (l : list elem) : text := match l with [] => [] | x :: l' => plain_text x ++ go l' end in
+  match e with
+  | EText t => t
+  | EBr => [10]
+  | ENode _ _ cs => go cs
+  | ERuby b t => go b ++ go t
+  end.
+Definition cue_matches (c : Z * Z * text) (p : para) : bool :=
+  let '(b, e, t) := c in
+  Qeq_bool (pa_begin p) (Qmake b 1000) && Qeq_bool (pa_end p) (Qmake e 1000) &&
+  text_eqb (flat_map plain_text (pa_children p)) t.
+Fixpoint cues_match (cs : list (Z * Z * text)) (ps : list para) : bool :=
+  match cs, ps with
+  | [], [] => true
+  | c :: cs', p :: ps' => cue_matches c p && cues_match cs' ps'
+  | _, _ => false
+  end.
+Definition cases_written (cs : list (list (Z * Z * text) * outcome)) : list bool :=
+  map (fun c => match snd c with OkDoc _ ps => cues_match (fst c) ps | Raised _ => false end) cs.
